@@ -421,6 +421,14 @@ fn cmd_eval(args: &[String]) {
                     .collect();
                 let mut r = json!({"kind":"val","id":format!("{}#{}", case["id"].as_str().unwrap(), vi),"rec":rec,
                     "ats":case["ats"],"ty":type_json(&ty),"mode":mode,"args":jargs,"out":[],"st":st_name(&mst)});
+                // byte layout of the value and the verdict of the real check_type: OpsTrace requires the layout to
+                // fit the node's type (a packed array that merely decodes to the right elements is not enough)
+                if let Ok(Ok(v)) = &res {
+                    if let Ok(tr) = guarded(|| shape_tree(v)) {
+                        r["tree"] = tr;
+                        r["chk"] = json!(matches!(guarded(|| v.check_type(ty.clone())), Ok(Ok(true))));
+                    }
+                }
                 match res {
                     Ok(Ok(v)) => match value_to_tree(&v, &ty) {
                         Ok(tr) => {
